@@ -175,7 +175,7 @@ package reflection
 //@   interferes
 //@   nopanic
 //@   safety[C15]
-//@   requires args: info != nil
+//@   requires args: info != nil && info.Type != nil
 // reflect.Value.Call hands one argument to each parameter: the slice resolved for a variadic parameter is not one of its elements
 //@   at before call info.Value.Call#1 : assert[C04,C08,C15] variadic_functions_are_called_with_their_slice: !ext("(reflect.Type).IsVariadic", "bool", info.Type)
 //@   ensures[C01,C04] calls_the_analyzed_value_once: ncalls("reflect.Value.Call") == 1 && callarg("reflect.Value.Call", 0, 0) == info.Value && callarg("reflect.Value.Call", 0, 1) == args
